@@ -1,4 +1,5 @@
 import LiquidVerif.Lemmas.Printer
+import LiquidVerif.Lemmas.PathRT
 /-!
 # C04 — serialising a template back to source preserves its meaning
 
@@ -128,5 +129,38 @@ theorem orig_repr_newline_counterexample :
   intro h
   have := h ['a', '\n', 'b'] (by decide)
   revert this; decide
+
+/-! ### Paths -/
+
+/-- **Bracketed and nested paths** (`[x]`, `a[b.c][0]['x y'].z`, quoted and keyword segments, bracketed
+roots): the tokens of the printed path, followed by anything that does not continue a path, are read
+back by `Path.parse` as exactly the same segments — for every path whose nested paths are non-empty
+(which is what the parser produces), of any length and nesting depth. -/
+theorem path_print_parse (s : Seg) (p : Segs) (rest : List PTok) (hw : (Segs.cons s p).wf) (hs : PathStop rest) :
+    parsePath (tokSegs true (.cons s p) ++ rest) = some (.cons s p, rest) :=
+  parsePath_of_loop _ _ _ _ (segs_rt (.cons s p) true rest hw hs)
+
+/-- non-vacuity: `[x].a['b c'][[k]][0]` is well formed, and `)`/`|`/end of expression stop a path -/
+example : (Segs.cons (.sub (.cons (.name "x") .nil)) (.cons (.name "a") (.cons (.name "b c")
+    (.cons (.sub (.cons (.sub (.cons (.name "k") .nil)) .nil)) (.cons (.idx 0) .nil))))).wf := by
+  simp [Segs.wf, Seg.wf]
+example : PathStop [] ∧ PathStop [.other 0] ∧ PathStop [.rbracket, .dot] := ⟨trivial, trivial, trivial⟩
+
+/-- The unchanged tree printed the bracketed root `[x]` as `x` (a different variable). -/
+theorem orig_path_root_counterexample :
+    ¬ (∀ p : Segs, p.wf → p ≠ .nil → parsePath (tokSegsOrig p) = some (p, [])) := by
+  intro h
+  have h1 := h (.cons (.sub (.cons (.name "x") .nil)) .nil) (by simp [Segs.wf, Seg.wf]) (by simp)
+  have h2 : parsePath (tokSegsOrig (.cons (.sub (.cons (.name "x") .nil)) .nil))
+      = some (.cons (.name "x") .nil, []) := by
+    have hp : isProperty "x" = true := by decide
+    have : tokSegsOrig (.cons (.sub (.cons (.name "x") .nil)) .nil) = [.word "x"] := by
+      simp [tokSegsOrig, tokSegs, tokSeg, hp]
+    rw [this]
+    apply parsePath_of_loop
+    rw [pathLoop_word _ _ rfl, pathLoop_stop (by trivial)]
+    rfl
+  rw [h2] at h1
+  simp at h1
 
 end LiquidVerif.C04
